@@ -101,6 +101,26 @@ class Cnt( Component ):
       if s.reset: s.out <<= rv
       elif s.en:  s.out <<= s.out + 1
 
+class Cmp( Component ):
+  # one-bit signals whose value object comes straight out of a comparison / reduction / bit select
+  def construct( s, n ):
+    s.a  = InPort( mk_bits(n) )
+    s.b  = InPort( mk_bits(n) )
+    s.eq = OutPort( Bits1 )
+    s.lt = OutPort( Bits1 )
+    s.ne_r = OutPort( Bits1 )
+    s.ro = OutPort( Bits1 )
+    s.lsb = OutPort( Bits1 )
+    @update
+    def up_cmp():
+      s.eq  @= s.a == s.b
+      s.lt  @= s.a < s.b
+      s.ro  @= reduce_or( s.a ^ s.b )
+      s.lsb @= s.a[0]
+    @update_ff
+    def ff_cmp():
+      s.ne_r <<= s.a != s.b
+
 class PackPt( Component ):
   def construct( s ):
     s.a = InPort( Bits1 )
@@ -387,9 +407,32 @@ class Deep( Component ):
     s.cnt_out //= s.cnt.out
     s.qq[0:2] //= s.l3.q0
     s.qq[2:4] //= s.l3.q1
+
+# ---- CmpTop: one-bit signals produced by comparisons, directly and through nets ----------------
+class CmpTop( Component ):
+  def construct( s ):
+    s.a = InPort( Bits2 )
+    s.b = InPort( Bits2 )
+    s.eq = OutPort( Bits1 )
+    s.lt = OutPort( Bits1 )
+    s.ne_r = OutPort( Bits1 )
+    s.flags = OutPort( Bits3 )
+    s.ge = OutPort( Bits1 )
+    s.c = Cmp( 2 )
+    s.c.a //= s.a
+    s.c.b //= s.b
+    s.eq //= s.c.eq
+    s.lt //= s.c.lt
+    s.ne_r //= s.c.ne_r
+    s.flags[0:1] //= s.c.ro
+    s.flags[1:2] //= s.c.lsb
+    s.flags[2:3] //= s.c.eq
+    @update
+    def up_ge():
+      s.ge @= s.a >= s.b
 '''
 
-LIB = ["Tiny", "Small2", "TwoLevel", "StructNets", "Wide", "IfcTop", "ManyNets", "Deep"]
+LIB = ["Tiny", "Small2", "TwoLevel", "StructNets", "Wide", "IfcTop", "ManyNets", "Deep", "CmpTop"]
 
 # ----------------------------------------------------------------------------------------------
 # random hierarchical designs
@@ -406,7 +449,7 @@ def _tt(t):
 def _leaf_specs(R):
     """(ctor text, [(in name, type)], [(out name, type)])"""
     n = R.choice(_BW)
-    k = R.choice(["pass", "pass", "reg", "regn", "inv", "cat", "split", "cnt", "pack", "unpack", "spass", "sreg"])
+    k = R.choice(["pass", "pass", "reg", "regn", "inv", "cat", "split", "cnt", "pack", "unpack", "spass", "sreg", "cmp"])
     b = lambda w: ("b", w)
     if k == "pass":
         return "PassT( mk_bits(%d) )" % n, [("in_", b(n))], [("out", b(n))]
@@ -426,6 +469,8 @@ def _leaf_specs(R):
     if k == "cnt":
         w = R.choice([1, 2, 3])
         return "Cnt( %d, %d )" % (w, R.randrange(1 << w)), [("en", b(1))], [("out", b(w))]
+    if k == "cmp":
+        return "Cmp( %d )" % n, [("a", b(n)), ("b", b(n))], [("eq", b(1)), ("lt", b(1)), ("ne_r", b(1)), ("ro", b(1)), ("lsb", b(1))]
     if k == "pack":
         return "PackPt()", [("a", b(1)), ("b", b(3))], [("out", ("s", "Pt"))]
     if k == "unpack":
